@@ -3,10 +3,12 @@
 EXTENDS Stream, Json, IOUtils
 
 Tr == ndJsonDeserialize(IOEnv.TRACE)
-VARIABLES l, bad, why, hid, ncall, wr
-(* ncall: number of request calls so far; wr: fds reported writable in the processing call in progress and not yet written to *)
-tvars == <<zvars, l, bad, why, hid, ncall, wr>>
-xv == <<ncall, wr>>
+VARIABLES l, bad, why, hid, ncall, wr, sticky
+(* ncall: number of request calls so far; wr: fds reported writable in the processing call in progress and not yet written to;
+   sticky: answers that were complete after a read that returned less than was asked for -- the library has no reason to
+   read again before processing them, so they stay owed even if a later read on that connection fails *)
+tvars == <<zvars, l, bad, why, hid, ncall, wr, sticky>>
+xv == <<ncall, wr, sticky>>
 
 Rej(label) == /\ bad' = TRUE /\ why' = [line |-> l, label |-> label] /\ UNCHANGED <<zvars, xv>>
 Acc == UNCHANGED <<bad, why>>
@@ -40,15 +42,17 @@ MaxSeq(e) ==
 HSend(e) ==
   IF e.fd \notin DOMAIN tfd \/ tfd[e.fd].srv = 0 THEN Skip
   ELSE IF e.res = "ok" /\ BadFrame(e.frames) THEN Rej("c20.malformed_frame_at_server")
+  ELSE IF e.res = "ok" /\ e.tcp = 0 /\ \E i \in 1..Len(e.frames) : e.frames[i].mlen # e.frames[i].len
+       THEN Rej("c20.datagram_is_not_exactly_one_message")
   ELSE IF e.res = "ok" /\ UdpInsteadOfTcp(e) THEN Rej("c20.truncated_answer_not_retried_over_tcp")
   ELSE IF e.res = "ok" /\ OutOfOrder(e) THEN Rej("c20.queued_queries_out_of_order")
   ELSE /\ tq' = IF e.res = "ok" THEN NoteFrames(tq, e.frames, 1, e.fd) ELSE tq
-       /\ tfd' = [tfd EXCEPT ![e.fd].wpend = (e.tcp = 1 /\ (e.res = "wb" \/ (e.res = "ok" /\ e.n < e.len))),
+       /\ tfd' = [tfd EXCEPT ![e.fd].wpend = (e.res = "wb" \/ (e.tcp = 1 /\ e.res = "ok" /\ e.n < e.len)),
                              ![e.fd].err = @ \/ (e.res = "err"),
                              ![e.fd].lastseq = IF e.res = "ok" THEN MaxSeq(e) ELSE @]
        /\ mustTcp' = IF e.res = "ok" /\ e.tcp = 1 THEN mustTcp \ {e.frames[i].qid : i \in 1..Len(e.frames)} ELSE mustTcp
        /\ wr' = wr \ {e.fd}
-       /\ UNCHANGED <<tcfg, due, got, cseq, ncall>> /\ Acc
+       /\ UNCHANGED <<tcfg, due, got, cseq, ncall, sticky>> /\ Acc
 
 (* consume every message that is now complete on a TCP connection *)
 RECURSIVE Complete(_, _, _)
@@ -71,7 +75,8 @@ HRecv(e) ==
   ELSE LET r == Complete(e.fd, tfd[e.fd].pk, tfd[e.fd].inb + e.n) IN
        /\ tfd' = [tfd EXCEPT ![e.fd].pk = r[1], ![e.fd].inb = r[2], ![e.fd].err = @ \/ r[4]]
        /\ due' = due \cup r[3] /\ got' = got \cup r[3]
-       /\ UNCHANGED <<tcfg, tq, mustTcp, cseq, xv>> /\ Acc
+       /\ sticky' = IF e.n < e.cap THEN sticky \cup r[3] ELSE sticky
+       /\ UNCHANGED <<tcfg, tq, mustTcp, cseq, ncall, wr>> /\ Acc
 
 HCbb(e) ==
   LET ids == {id \in DOMAIN tq : tq[id].t = e.t} IN
@@ -89,12 +94,12 @@ HRet(e) ==
   ELSE IF due # {} THEN Rej("c20.complete_answer_not_delivered")
   ELSE IF e.api = "process" /\ \E fd \in wr : fd \in DOMAIN tfd /\ tfd[fd].open /\ tfd[fd].wpend THEN Rej("c20.pending_bytes_not_flushed_when_writable")
   ELSE IF \E fd \in DOMAIN tfd : tfd[fd].open /\ tfd[fd].wpend /\ tfd[fd].annw = 0 THEN Rej("c20.partial_write_without_write_interest")
-  ELSE wr' = {} /\ UNCHANGED <<zvars, ncall>> /\ Acc
+  ELSE wr' = {} /\ UNCHANGED <<zvars, ncall, sticky>> /\ Acc
 
 HCall(e) ==
-  IF e.api = "process" THEN wr' = ToSet(e.w) /\ UNCHANGED <<zvars, ncall>> /\ Acc
+  IF e.api = "process" THEN wr' = ToSet(e.w) /\ UNCHANGED <<zvars, ncall, sticky>> /\ Acc
   ELSE IF e.api \in {"query", "send", "lquery", "lsend"} THEN
-       /\ cseq' = cseq @@ (e.t :> ncall + 1) /\ ncall' = ncall + 1
+       /\ cseq' = cseq @@ (e.t :> ncall + 1) /\ ncall' = ncall + 1 /\ UNCHANGED sticky
        /\ UNCHANGED <<tcfg, tfd, tq, due, got, mustTcp, wr>> /\ Acc
   ELSE IF e.api \in {"cancel", "destroy", "pendwrite"} THEN Skip
   ELSE Stop
@@ -109,7 +114,7 @@ HSk(e) ==
          tcfg' = [tcfg EXCEPT !.tcpfail = TRUE] /\ UNCHANGED <<tfd, tq, due, got, mustTcp, cseq, xv>> /\ Acc
     [] e.op = "close" /\ e.fd \in DOMAIN tfd ->
          \* queries on a closed connection are requeued: nothing is owed for answers that were on it
-         LET ids == IF tfd[e.fd].err THEN {id \in DOMAIN tq : tq[id].fd = e.fd} ELSE {} IN
+         LET ids == IF tfd[e.fd].err THEN {id \in DOMAIN tq : tq[id].fd = e.fd} \ sticky ELSE {} IN
          /\ due' = due \ ids /\ tfd' = [tfd EXCEPT ![e.fd].open = FALSE]
          /\ UNCHANGED <<tcfg, tq, got, mustTcp, cseq, xv>> /\ Acc
     [] OTHER -> Skip
@@ -120,7 +125,7 @@ Handle(e) ==
     [] e.e = "sk" -> HSk(e)
     [] e.e = "env" -> IF e.op = "stream" /\ e.fd \in DOMAIN tfd
                       THEN tfd' = [tfd EXCEPT ![e.fd].pk = Append(@, e)] /\ UNCHANGED <<tcfg, tq, due, got, mustTcp, cseq, xv>> /\ Acc
-                      ELSE IF e.op = "peerclose" THEN Stop ELSE Skip
+                      ELSE Skip      \* the peer closing the stream shows as end-of-stream on a later read
     [] e.e = "ann" -> IF e.fd \in DOMAIN tfd THEN tfd' = [tfd EXCEPT ![e.fd].annw = e.w] /\ UNCHANGED <<tcfg, tq, due, got, mustTcp, cseq, xv>> /\ Acc ELSE Skip
     [] e.e = "cbb" -> HCbb(e)
     [] e.e = "ret" -> HRet(e)
@@ -128,14 +133,14 @@ Handle(e) ==
     [] OTHER -> Skip
 
 Verdict == [verdict |-> IF bad /\ why.label # "" THEN "REJ" ELSE "ACC", id |-> hid, line |-> why.line, label |-> why.label]
-TInit == ZInit /\ ncall = 0 /\ wr = {} /\ l = 1 /\ bad = FALSE /\ why = [line |-> 0, label |-> ""] /\ hid = ""
+TInit == ZInit /\ ncall = 0 /\ wr = {} /\ sticky = {} /\ l = 1 /\ bad = FALSE /\ why = [line |-> 0, label |-> ""] /\ hid = ""
 TNext ==
   /\ l <= Len(Tr) /\ l' = l + 1
   /\ LET e == Tr[l] IN
        IF e.e = "reset" THEN
             /\ (hid # "" => PrintT(ToJson(Verdict)))
             /\ tcfg' = [igntc |-> 0, tcpfail |-> FALSE] /\ tfd' = <<>> /\ tq' = <<>> /\ due' = {} /\ got' = {} /\ mustTcp' = {} /\ cseq' = <<>>
-            /\ ncall' = 0 /\ wr' = {}
+            /\ ncall' = 0 /\ wr' = {} /\ sticky' = {}
             /\ bad' = FALSE /\ why' = [line |-> 0, label |-> ""] /\ hid' = e.id
        ELSE hid' = hid /\ (IF bad THEN Skip ELSE Handle(e))
 TSpec == TInit /\ [][TNext]_tvars
